@@ -17,10 +17,20 @@ type Api struct {
 	J       int64 // -1: block written completely; >= 0: the block write stopped after J bytes
 	HdrFail bool  // block written, in-place header update failed
 	SyncOK  bool  // header update + fsync of Sync/Close succeeded
+	// TruncFail: the block write stopped short (J >= 0) and the truncation back failed too
+	TruncFail bool
+	// Pre: the call found a dirty tail, its truncation failed again, nothing else was attempted
+	Pre bool
+	// Trunc (Kind "openfail"): the truncation of the torn tail succeeded, the fsync after it failed
+	Trunc bool
 }
 
 func ffCoq(a Api) string {
 	switch {
+	case a.Pre:
+		return "C02Writer.FFpre"
+	case a.J >= 0 && a.TruncFail:
+		return fmt.Sprintf("(C02Writer.FFshortDirty %d)", a.J)
 	case a.J >= 0:
 		return fmt.Sprintf("(C02Writer.FFshort %d)", a.J)
 	case a.HdrFail:
@@ -33,6 +43,11 @@ func (a Api) Coq() string {
 	switch a.Kind {
 	case "open":
 		return "C02Writer.AOpen"
+	case "openfail":
+		if a.Trunc {
+			return "C02Writer.AOpenFail true"
+		}
+		return "C02Writer.AOpenFail false"
 	case "write":
 		e := fmt.Sprintf("(%d, Some %d)", a.Key, a.Val)
 		if a.Del {
@@ -125,6 +140,15 @@ func liftFlush(a *Api, evs []Event) {
 	for i := range evs {
 		e := &evs[i]
 		switch e.Kind {
+		case EvTrunc:
+			if e.Ret != 0 {
+				if !hdrSeen {
+					// the retried truncation of an earlier failure failed again: flushLocked gave up
+					a.Pre, a.Flushed, a.Sz = true, true, 1
+				} else {
+					a.TruncFail = true
+				}
+			}
 		case EvWrite:
 			if !hdrSeen {
 				hdrSeen = true
@@ -144,6 +168,12 @@ func liftFlush(a *Api, evs []Event) {
 		case EvFsync:
 			fsyncEv = e
 		}
+	}
+	if a.Pre {
+		if a.Kind == "sync" || a.Kind == "close" {
+			a.SyncOK = true // irrelevant: the flush failed first
+		}
+		return
 	}
 	if a.Flushed {
 		if total < BH+a.Sz {
@@ -191,6 +221,22 @@ func Lift(s *Script, res []StepResult, tr *Trace) (hist []Api, oks []bool, done 
 		}
 		st := s.Steps[i]
 		evs := byCall[r.Call]
+		if r.Opened && r.OpenFailed {
+			// opening the existing file failed while its torn tail was being cut off
+			tr := false
+			for _, e := range evs {
+				if e.Kind == EvTrunc && e.Ret == 0 {
+					tr = true
+				}
+			}
+			hist = append(hist, Api{Kind: "openfail", J: -1, Trunc: tr})
+			oks = append(oks, false)
+			a := Api{Kind: "write", Key: st.Key, Val: st.Val, Del: st.K == KDelete, J: -1, SyncOK: true}
+			hist = append(hist, a)
+			oks = append(oks, r.OK)
+			done[i] = len(hist)
+			continue
+		}
 		if r.Opened {
 			hist = append(hist, Api{Kind: "open", J: -1})
 			oks = append(oks, true)
@@ -254,7 +300,7 @@ func ModelOps(nlen int, h []Api) (ops []MOp, ok bool) {
 		ops = append(ops, MOp{2, BH, false}, MOp{2, a.Sz, a.Sz == 0}, MOp{3, FH, false})
 	}
 	for _, a := range h {
-		if a.J >= 0 || a.HdrFail || ((a.Kind == "sync" || a.Kind == "close") && !a.SyncOK) {
+		if a.J >= 0 || a.HdrFail || a.Pre || a.Kind == "openfail" || ((a.Kind == "sync" || a.Kind == "close") && !a.SyncOK) {
 			return nil, false
 		}
 		switch a.Kind {
